@@ -129,6 +129,46 @@ def check_kernels(chk, v, prog):
     chk.vcount(vn, "R5.pointwise_kernels", len(found))
 
 
+def check_component_coverage(chk, v, g, mc, what, variant):
+    """every component index in [0, k+1) is accumulated exactly once, with result and sample at the same index:
+    index-coverage decision over the loop descriptors of all accumulate calls (unrolled loops, tails, ...)"""
+    from sa import bounds, coverage
+    from sa.pipeline import AnalysisBroken
+    r, pp, s, tp = [p["n"] for p in g.params]
+    NC = sym.sym("ncomp")                      # ncomp = k + 1
+    Kt = P(tp, "k")
+    toN = lambda t: sym.subst(t, {Kt: sym.sub(NC, I(1))})
+    terms, bad1 = [], []
+    for c_ in mc:
+        if len(c_["loops"]) > 1 or c_["guards"]:
+            raise AnalysisBroken("%s: accumulate call at line %s is not in at most one unguarded loop" % (g.name, c_["line"]))
+        a0, a1, a2 = c_["args"][:3]
+        b0, o0 = bounds.split_base_offset(a0)
+        b2, o2 = bounds.split_base_offset(a2)
+        if b0 != P(r, "a") or b2 != P(s, "a") or a1 != sym.sym(pp):
+            raise AnalysisBroken("%s: accumulate call on %s" % (g.name, [sym.show(x)[:40] for x in c_["args"][:3]]))
+        if o0 != o2:
+            bad1.append("component %s of the result accumulates component %s of the sample (line %s)" % (sym.show(o0), sym.show(o2), c_["line"]))
+        if c_["loops"]:
+            lp_ = dict(c_["loops"][0])
+            lp_["hi"], lp_["lo"] = toN(lp_["hi"]), toN(lp_["lo"])
+            terms.append((lp_, toN(o0), 1))
+        else:
+            u = sym.sym("u@%s" % c_["line"])
+            off = toN(o0)
+            terms.append(({"var": u, "lo": off, "cmp": "<", "hi": sym.add(off, I(1)), "step": I(1), "l": c_["line"]}, u, 1))
+    if not mc:
+        bad1.append("no component is accumulated")
+    det1 = ""
+    if not bad1:
+        st1, det1 = coverage.cover_1d(terms, NC, nmin=2)
+        if st1 == "unknown":
+            raise AnalysisBroken("%s: %s" % (g.name, det1))
+        if st1 == "refuted":
+            bad1.append("with n = k+1 components (k >= 1): %s" % det1)
+    chk.require(not bad1, "R1", what, where=g.where, ok="(result->a+i, p, sample->a+i): %s (n = k+1)" % det1, bad="; ".join(bad1), variant=variant)
+
+
 def run(chk):
     prog = Program()
     chk.explanation = (
@@ -175,10 +215,7 @@ def run(chk):
         gps, _ = summ.pieces(v, g, hooks=NOINLINE)
         r, pp, s, tp = [p["n"] for p in g.params]
         mc = [c for c in calls(gps) if "AddMulR" in c["name"]]
-        ok = len(mc) == 1 and len(mc[0]["loops"]) == 1 and rng(mc[0]["loops"][0]) == (ZERO, sym.add(P(tp, "k"), I(1))) and \
-            mc[0]["args"] == [sym.padd(P(r, "a"), mc[0]["loops"][0]["var"]), sym.sym(pp), sym.padd(P(s, "a"), mc[0]["loops"][0]["var"])]
-        chk.require(ok, "R1", "tLweAddMulRTo multiplies all k+1 components by the same polynomial", where=g.where,
-                    ok="AddMulR(result->a+i, p, sample->a+i) for i <= k", bad=[summ.show_piece(c)[:100] for c in mc], variant=vn)
+        check_component_coverage(chk, v, g, mc, "tLweAddMulRTo multiplies all k+1 components by the same polynomial", vn)
         # ---------------- R1 FFT external product
         f = v.fn("tGswFFTExternMulToTLwe")
         ps, _ = summ.pieces(v, f, hooks=NOINLINE)
@@ -226,10 +263,7 @@ def run(chk):
         gps, _ = summ.pieces(v, g, hooks=NOINLINE)
         r, pp, s, tp = [p["n"] for p in g.params]
         mc = calls(gps, "LagrangeHalfCPolynomialAddMul")
-        ok = len(mc) == 1 and len(mc[0]["loops"]) == 1 and rng(mc[0]["loops"][0]) == (ZERO, sym.add(P(tp, "k"), I(1))) and \
-            mc[0]["args"] == [sym.padd(P(r, "a"), mc[0]["loops"][0]["var"]), sym.sym(pp), sym.padd(P(s, "a"), mc[0]["loops"][0]["var"])]
-        chk.require(ok, "R1", "tLweFFTAddMulRTo accumulates all k+1 components", where=g.where, ok="AddMul(result->a+i, p, sample->a+i) for i <= k",
-                    bad=[summ.show_piece(c)[:100] for c in mc], variant=vn)
+        check_component_coverage(chk, v, g, mc, "tLweFFTAddMulRTo accumulates all k+1 components", vn)
         # rows of block p start at p*l in both representations
         for iname, arrname in (("init_TGswSample", "all_sample"), ):
             h = v.fn(iname)
